@@ -95,6 +95,11 @@ class Bounds:
             n = closure_enumerate_len(self.b)
             if n is not None:
                 return (0, n - 1)
+        if t[0] == 'param' and t[1] == 2 and self.b.kind == 'Closure':
+            # the index a closure receives from `std::array::from_fn::<_, N, _>`: 0..N
+            n = closure_from_fn_len(self.b)
+            if n is not None:
+                return (0, n - 1)
         if t[0] == 'fld' and self.b.kind == 'Closure' and util.is_param(t[1], 1):
             # captured variable: evaluate it where the closure is created
             cap = closure_capture(self.b, t[2])
@@ -153,6 +158,21 @@ class Bounds:
             if n is not None:
                 return (n, n)
         return None
+
+
+def closure_from_fn_len(cb):
+    """N when closure body cb is the generator passed to array::from_fn producing [T; N] in its parent, else None"""
+    parent = cb.prog.bodies.get(cb.raw.get('parent'))
+    owners = [parent] if parent is not None else []
+    # the closure may be created inside another closure of the same parent
+    owners += [b for b in cb.prog.bodies.values() if b.kind == 'Closure' and b.raw.get('parent') == cb.raw.get('parent') and b is not cb]
+    for pb in owners:
+        for bi, t in pb.calls():
+            if cname(callee_name(t)) == 'array::from_fn' and len(t['args']) == 1:
+                cl, caps = util.closure_of_term(cb.prog, pb.op_term(t['args'][0], (bi, None)))
+                if cl is not None and cl.path == cb.path:
+                    return array_len_of_type(pb.local_ty(t['dest']['local']))
+    return None
 
 
 def closure_capture(cb, name):
